@@ -10,12 +10,12 @@
     scanned namespace first, then the includes); the list theorems hold for EVERY such `res`;
   * C12_struct_links_typeStruct: node names are unique (`Namespace.names` is a dict: `Nodup`) and
     no link exists before `_find_class_record` runs (fresh nodes), stated as `Fresh`;
-  * C12_default_written_partial: the reported default is not the empty string (witness
-    C12_default_written_counterexample, PENDING_FINDINGS 'default-value-dropped:empty-string');
-  * C12_error_domain_partial: the error-quark function is not moved into a class by
-    `_pair_static_method` (`quarkFloated … = false`); the excluded input class is witnessed by
-    C12_error_domain_counterexample and replayed on the real code by harness/c12.py
-    (PENDING_FINDINGS 'error-domain-lost:quark-function-owned-by-class').
+  * C12_error_domain: "the matching enumeration" is the node `quarkTarget` selects (the rule is
+    spelled out by C12_error_domain_target / C12_quark_longest_prefix), found by name in the
+    namespace (`Namespace.names` is a dict), and no two error-quark functions that name the same
+    enumeration report DIFFERENT domains (an enumeration carries one glib:error-domain, so on such
+    an input no GIR can satisfy the sentence; the code keeps the last one in `Namespace.symbols`
+    order).
 -/
 import GIVerif.Lemmas.Dump
 
@@ -43,6 +43,10 @@ theorem C12_source_shape :
     ∧ Gen.signalArgNames = ["object", "p%s"]
     ∧ Gen.defaultIfaceParent = ["GObject.Object"]
     ∧ Gen.quarkLiterals = ["g_io_error", "Gio", "IOErrorEnum", "_quark", "_quark"]
+    ∧ Gen.quarkLoopIters = ["self._namespace.values()", "list(self._namespace.symbols.values())"]
+    ∧ Gen.floatShape = ["if isinstance(node, Function): ;     symbol = node.symbol", "self.remove(node)",
+         "self.symbols[symbol] = node", "node.namespace = self"]
+    ∧ Gen.defaultWrittenTests = ["prop.default_value is not None"]
     ∧ Gen.vfuncTests = ["firstparam_type != node_type", "len(callback.parameters) == 0"]
     ∧ Gen.plainGtypeKind = "gtype" := by
   decide
@@ -247,24 +251,13 @@ example :
       [⟨['z', 'e', 't', 'a'], ['g', 'i', 'n', 't'], 1, none⟩, ⟨['a', 'l', 'p', 'h', 'a'], ['g', 'i', 'n', 't'], 2, none⟩]) :=
   (C12_exact_lists_written_order _ _).1
 
-/-- The default value reaches the GIR as reported — NOT for the empty string on the unchanged
-    code (full statement; see the counterexample). -/
-def C12_default_written_full : Prop := ∀ d : Option Str, writtenDefault d = d
+/-- The default value reaches the GIR as reported: `_write_property` writes the attribute for
+    every reported default, the empty string included (gdump.c writes `default-value=""` for a
+    string property whose default is ""), and writes none when none was reported. -/
+theorem C12_default_written (d : Option Str) : writtenDefault d = d := by
+  cases d <;> rfl
 
-/-- proved part: every reported default other than the empty string is written unchanged, and an
-    absent default stays absent -/
-theorem C12_default_written_partial (d : Option Str) (h : d ≠ some []) : writtenDefault d = d := by
-  cases d with
-  | none => rfl
-  | some s =>
-    cases s with
-    | nil => exact absurd rfl h
-    | cons c cs => rfl
-
-/-- the excluded input: `default-value=""` (gdump.c writes it for a string property whose default
-    is ""), replayed on the real code by the harness ('default-value-dropped:empty-string') -/
-theorem C12_default_written_counterexample : writtenDefault (some []) ≠ some [] := by decide
-
+example : writtenDefault (some []) = some [] := by decide
 example : writtenDefault (some ['N', 'U', 'L', 'L']) = some ['N', 'U', 'L', 'L'] := by decide
 
 /-! ### C12_struct_links -/
@@ -518,39 +511,65 @@ theorem C12_error_domain_target (env : Env) (reg : List (Str × Node)) (ns : NS)
   simp only [quarkTarget, hs, this, Bool.false_eq_true, if_false, hsub]
   cases lookupLast reg (sub.take (sub.length - 6)) <;> rfl
 
-/-- An error-quark function stays in the namespace (so that `_pair_quarks_with_enums` sees it)
-    exactly when `_pair_static_method` does not move it into a CLASS: the longest registered
-    type prefix of its name is not a class (or there is none). -/
-theorem C12_error_domain_kept (env : Env) (reg : List (Str × Node)) (ns ns' : NS)
-    (h : floatQuarks env reg ns = .ok ns') (q : Node) (hk : q.kind = .quark) :
-    q ∈ ns' ↔ (q ∈ ns ∧ quarkFloated env reg q = .ok false) :=
-  floatQuarks_mem env reg ns ns' h q hk
+/-- Where the function-pairing loop leaves an error-quark function: in the namespace, unless
+    `_pair_static_method` moves it into a CLASS (the longest registered type prefix of its name is
+    a class and something follows it) — then it is among the floated functions, which
+    `Namespace.float` keeps in `Namespace.symbols`.  Either way `_pair_quarks_with_enums` sees it. -/
+theorem C12_error_domain_floated (env : Env) (reg : List (Str × Node)) (ns : NS) (r : NS × List Node)
+    (h : floatQuarks env reg ns = .ok r) (q : Node) (hk : q.kind = .quark) :
+    (q ∈ r.1 ↔ (q ∈ ns ∧ quarkFloated env reg q = .ok false)) ∧
+    (q ∈ r.2 ↔ (q ∈ ns ∧ quarkFloated env reg q = .ok true)) ∧
+    (q ∈ ns → q ∈ symbolsOrder r.1 r.2) := by
+  obtain ⟨h1, h2⟩ := floatQuarks_mem env reg ns r h q hk
+  refine ⟨h1, h2, ?_⟩
+  intro hq
+  obtain ⟨b, hb⟩ := floatQuarks_decided env reg ns r h q hq hk
+  unfold symbolsOrder
+  cases b with
+  | false => exact List.mem_append_left _ (h1.mpr ⟨hq, hb⟩)
+  | true => exact List.mem_append_right _ (h2.mpr ⟨hq, hb⟩)
 
-/-- The full statement: every error-quark function of the namespace gives its domain to the
-    enumeration it names.  NOT a theorem of the unchanged code: see the counterexample below. -/
-def C12_error_domain_full : Prop :=
-  ∀ (env : Env) (ns : NS) (dump : List DItem) (m : Merged) (q e : Node) (sub : Str),
-    merge env ns dump = .ok m → q ∈ m.afterParse → q.kind = .quark →
-    q.symbol.bind (splitCSymbol env) = some sub →
-    lookupLast (uscoreEnums m.afterParse) (sub.take (sub.length - 6)) = some e →
-    (nsGet m.final e.name).bind (·.errorDomain) = q.errorDomain
-
-/-- Proved part: from the moment `_pair_quarks_with_enums` reaches an error-quark function `q`
-    that is still in the namespace and names the enumeration `e`, `e` carries `q`'s domain at the
-    end, provided no later quark function names `e` again (the last writer wins).  The excluded
-    input class — `q` was moved into a class before, so the loop never reaches it — is exactly
-    `quarkFloated … = true` (C12_error_domain_kept). -/
-theorem C12_error_domain_partial (env : Env) (reg : List (Str × Node)) (ns0 : NS) (q : Node) (later : List Node)
-    (acc res : NS) (t n : Node)
-    (hk : q.kind = .quark) (ht : quarkTarget env reg ns0 q = .ok (some t))
-    (hn : nsGet acc t.name = some n) (henum : n.kind = .enum)
-    (hlater : ∀ q' ∈ later, q'.kind = .quark → ∀ t', quarkTarget env reg ns0 q' = .ok (some t') → t'.name ≠ t.name)
-    (h : pairQuarksLoop env reg ns0 (q :: later) acc = .ok res) :
-    nsGet res t.name = some { n with errorDomain := q.errorDomain } := by
-  unfold pairQuarksLoop at h
-  simp only [hk, beq_self_eq_true, if_true, bind, Except.bind, ht] at h
-  rw [pairQuarksLoop_frame env reg ns0 t.name later _ res h hlater]
-  exact nsGet_setErrorDomain_eq acc t.name q.errorDomain n hn henum
+/-- Error-quark functions give their error domain to the matching enumeration: for EVERY
+    error-quark function `q` the dump parser left in the namespace — whether or not a class takes
+    it as a static method afterwards — the enumeration `n` it names (`quarkTarget`) carries `q`'s
+    domain in the final namespace, and is otherwise unchanged. -/
+theorem C12_error_domain (env : Env) (ns : NS) (dump : List DItem) (m : Merged)
+    (h : merge env ns dump = .ok m) (q t n : Node)
+    (hq : q ∈ m.afterParse) (hk : q.kind = .quark)
+    (ht : quarkTarget env m.reg m.paired q = .ok (some t))
+    (hn : nsGet m.paired t.name = some n) (henum : n.kind = .enum)
+    (hconf : ∀ q' ∈ m.afterParse, q'.kind = .quark → ∀ t', quarkTarget env m.reg m.paired q' = .ok (some t') →
+      t'.name = t.name → q'.errorDomain = q.errorDomain) :
+    nsGet m.final t.name = some { n with errorDomain := q.errorDomain } := by
+  obtain ⟨fl, hreg, hfl, hpaired, hfloated, hloop⟩ := merge_ok env ns dump m h
+  -- every quark function of the loop's list comes from the namespace after `parse`
+  have hback : ∀ q' ∈ m.paired ++ m.floated, q'.kind = .quark → q' ∈ m.afterParse := by
+    intro q' hq' hk'
+    have hm := floatQuarks_mem env m.reg _ fl hfl q' hk'
+    rcases List.mem_append.mp hq' with h1 | h1
+    · rw [hpaired] at h1
+      have := (hm.1.mp ((mem_pairVirtuals_quark env fl.1 q' hk').mp h1)).1
+      exact (mem_resolvePass_quark env m.afterParse q' hk').mp this
+    · rw [hfloated] at h1
+      exact (mem_resolvePass_quark env m.afterParse q' hk').mp (hm.2.mp h1).1
+  -- and `q` is in that list
+  have hin : q ∈ m.paired ++ m.floated := by
+    have h2 : q ∈ resolvePass env m.afterParse := (mem_resolvePass_quark env m.afterParse q hk).mpr hq
+    obtain ⟨b, hb⟩ := floatQuarks_decided env m.reg _ fl hfl q h2 hk
+    have hm := floatQuarks_mem env m.reg _ fl hfl q hk
+    cases b with
+    | false =>
+      apply List.mem_append_left
+      rw [hpaired]
+      exact (mem_pairVirtuals_quark env fl.1 q hk).mpr (hm.1.mpr ⟨h2, hb⟩)
+    | true =>
+      apply List.mem_append_right
+      rw [hfloated]
+      exact hm.2.mpr ⟨h2, hb⟩
+  rcases pairQuarksLoop_agree env m.reg m.paired t.name q.errorDomain _ m.paired m.final n hloop hn henum
+      (fun q' hq' hk' t' ht' hx => hconf q' (hback q' hq' hk') hk' t' ht' hx) with h1 | ⟨_, h2⟩
+  · exact h1
+  · exact absurd rfl (h2 q hin hk t ht)
 
 /-! the witness: class FooBar (foo_bar_get_type), plain enum FooBarError, foo_bar_error_quark -/
 
@@ -581,16 +600,34 @@ def errorDomainOfBarError (r : Except String Merged) : Option (Option Str) :=
   | .ok m => (nsGet m.final ['B', 'a', 'r', 'E', 'r', 'r', 'o', 'r']).map (·.errorDomain)
   | .error _ => none
 
-/-- With the class in the dump the enumeration gets NO error domain (the unchanged code
-    violates the statement on this in-scope input; replayed on the real code by the harness) … -/
-theorem C12_error_domain_counterexample :
-    errorDomainOfBarError (merge cexEnv cexNs (cexDump true)) = some none := by
+/-- With the class in the dump `foo_bar_error_quark` becomes a static method of FooBar
+    (`floated`) and the enumeration still gets its error domain … -/
+theorem C12_error_domain_witness_class :
+    errorDomainOfBarError (merge cexEnv cexNs (cexDump true))
+      = some (some ['f', 'o', 'o', '-', 'b', 'a', 'r', '-', 'e', 'r', 'r', 'o', 'r']) := by
   decide +kernel
 
-/-- … and without it (record Bar instead of class Bar) the same function and enumeration pair up. -/
+/-- … as it does without it (record Bar instead of class Bar: the function stays in the namespace). -/
 theorem C12_error_domain_witness_ok :
     errorDomainOfBarError (merge cexEnv cexNs (cexDump false))
       = some (some ['f', 'o', 'o', '-', 'b', 'a', 'r', '-', 'e', 'r', 'r', 'o', 'r']) := by
+  decide +kernel
+
+/-- the hypotheses of C12_error_domain on the two witnesses: one error-quark function after
+    `parse`, it names BarError, it is floated exactly when the class is there -/
+def quarkSummary (r : Except String Merged) : Option (List (Option Str) × Nat) :=
+  match r with
+  | .ok m =>
+    some ((m.afterParse.filter (fun q => q.kind == .quark)).map (fun q =>
+            match quarkTarget cexEnv m.reg m.paired q with
+            | .ok (some t) => (nsGet m.paired t.name).bind (fun n => if n.kind == .enum then some n.name else none)
+            | _ => none),
+          m.floated.length)
+  | .error _ => none
+
+example : quarkSummary (merge cexEnv cexNs (cexDump true)) = some ([some ['B', 'a', 'r', 'E', 'r', 'r', 'o', 'r']], 1) := by
+  decide +kernel
+example : quarkSummary (merge cexEnv cexNs (cexDump false)) = some ([some ['B', 'a', 'r', 'E', 'r', 'r', 'o', 'r']], 0) := by
   decide +kernel
 
 /-! ### non-vacuity of the struct-link theorems: class Bar, BarClass with three members -/
